@@ -143,6 +143,33 @@ def main(tier: str) -> int:
                 if told != exp:
                     diff = {k: (exp[k], told.get(k)) for k in exp if told.get(k) != exp[k]}
                     run.violation(dict(key, clause="reader-told-differently", fields=sorted(diff)), f"written vs what the reader is told: {diff}", rp)
+    # defaults: no options at all, and the documented LookupPreset.small()
+    from pyjelly.options import LookupPreset  # noqa: PLC0415
+    from pyjelly.serialize.streams import SerializerOptions  # noqa: PLC0415
+
+    _sz = lambda lp: (lp.max_names, lp.max_prefixes, lp.max_datatypes)  # noqa: E731   (whatever the defaults are: the header must say what the options object says)
+    for label, opts, exp_sizes in (("no-options", None, _sz(LookupPreset())), ("default-options", SerializerOptions(), _sz(SerializerOptions().lookup_preset)),
+                                   ("LookupPreset.small()", SerializerOptions(lookup_preset=LookupPreset.small()), _sz(LookupPreset.small()))):
+        for integ in ("generic", "rdflib"):
+            written += 1
+            try:
+                from .. import terms as _t  # noqa: PLC0415
+                mod = __import__(f"pyjelly.integrations.{integ}.serialize", fromlist=["flat_stream_to_file"])
+                out_ = io.BytesIO()
+                gen_ = (x for x in [_t.stmt_to_generic(st) if integ == "generic" else impl.rdflib_statement(st)])
+                if opts is None:
+                    mod.flat_stream_to_file(gen_, out_)
+                else:
+                    mod.flat_stream_to_file(gen_, out_, opts)
+                opt = wire.dec_delimited(out_.getvalue())[0]["rows"][0]
+            except Exception as ex:  # noqa: BLE001
+                run.violation({"side": "write", "clause": "writer-refuses-valid-configuration", "sclass": "triple", "ltype": "default", "delimited": True, "defaults": label},
+                              f"{type(ex).__name__}: {str(ex)[:80]}", {"defaults": label, "integ": integ})
+                continue
+            got_sizes = (opt["mn"], opt["mp"], opt["md"])
+            if got_sizes != exp_sizes or opt["pt"] != 1 or opt["lt"] != 1 or opt["ver"] != 1:
+                run.violation({"side": "write", "clause": "header-written-differs", "fields": ["defaults"], "sclass": "triple", "ltype": "default", "delimited": True, "defaults": label},
+                              f"{label} ({integ}): header {opt}, the options object says {exp_sizes}, FLAT_TRIPLES, version 1", {"defaults": label, "integ": integ})
     # name tables below 8 are refused by the writer as well
     for mn in (0, 1, 7):
         try:
